@@ -17,3 +17,10 @@ import Ark.Props.C17
 #print axioms Ark.Props.C17.load_gets_agree
 #print axioms Ark.Props.C17.load_locked
 #print axioms Ark.Props.C17.load_notEmpty
+#print axioms Ark.Props.C17.hist_dump_spec
+#print axioms Ark.Props.C17.hist_dump_load_alive_and_handles
+#print axioms Ark.Props.C17.hist_dump_load_creations
+#print axioms Ark.Props.C17.hist_creation_handle
+#print axioms Ark.Props.C17.hist_loaded_world
+#print axioms Ark.Props.C17.hist_loaded_world_normalised
+#print axioms Ark.Props.C17.hist_loaded_index_deviates
